@@ -304,6 +304,13 @@ func NewHTTPTargeter(src io.Reader, body []byte, hdr http.Header) Targeter {
 		}
 		tgt.URL = tokens[1]
 		line = strings.TrimSpace(sc.Peek())
+		for strings.HasPrefix(line, "#") {
+			// Comment lines are ignored here too: otherwise a request line that
+			// follows a comment would be taken for a header of this target.
+			sc.Scan()
+			sc.Text()
+			line = strings.TrimSpace(sc.Peek())
+		}
 		if line == "" || startsWithHTTPMethod(line) {
 			return nil
 		}
